@@ -57,7 +57,7 @@ Fixpoint interp (s : list Q) (h : Q) : Q :=
               | b :: _ => if Qle_bool 1 h then interp r (h - 1) else a + h * (b - a)
               end
   end.
-Definition qlen (l : list Q) : Q := inject_Z (Z.of_nat (length l)).
+Definition qlen (l : list Q) : Q := inject_Z (Z.of_nat (List.length l)).
 (* np.quantile(xs, p) *)
 Definition quantile (xs : list Q) (p : Q) : Q := interp (qsort xs) ((qlen xs - 1) * p).
 Definition qsum (l : list Q) : Q := fold_right Qplus 0 l.
@@ -78,22 +78,22 @@ Definition bindings (d : pdesc) : list (str * bound) := combine (D_fields d) (ex
 Definition is_digit (c : Z) : bool := (48 <=? c)%Z && (c <=? 57)%Z.
 Fixpoint digits_val (acc : Z) (l : list Z) : option (Z * list Z) :=   (* value, rest *)
   match l with
-  | c :: r => if is_digit c then digits_val (10 * acc + (c - 48)) r else Some (acc, l)
+  | c :: r => if is_digit c then digits_val (10 * acc + (c - 48))%Z r else Some (acc, l)
   | [] => Some (acc, [])
   end.
 Fixpoint pow10 (n : nat) : Z := match n with O => 1%Z | S k => (10 * pow10 k)%Z end.
 Definition label_prob (name : str) : option Q :=
   match name with
-  | 113 :: c :: r =>          (* 'q' digit... *)
+  | 113%Z :: c :: r =>          (* 'q' digit... *)
       if is_digit c then
-        match digits_val 0 (c :: r) with
+        match digits_val 0%Z (c :: r) with
         | Some (i, []) => Some (inject_Z i / 100)
-        | Some (i, 95 :: f) =>          (* '_' fractional digits *)
+        | Some (i, 95%Z :: f) =>          (* '_' fractional digits *)
             match f with
             | [] => None
             | _ => if forallb is_digit f then
-                     match digits_val 0 f with
-                     | Some (fr, []) => Some ((inject_Z i + inject_Z fr / inject_Z (pow10 (length f))) / 100)
+                     match digits_val 0%Z f with
+                     | Some (fr, []) => Some ((inject_Z i + inject_Z fr / inject_Z (pow10 (List.length f))) / 100)
                      | _ => None end
                    else None
             end
@@ -124,7 +124,7 @@ Definition binding_ok (b : str * bound) : bool :=
 Definition labels_ok (d : pdesc) : bool :=
   forallb binding_ok (bindings d)
   && forallb (fun f => negb (is_stat_field f) || existsb (fun b => str_eqb f (fst b)) (bindings d)) (D_fields d)
-  && (length (expand d) <=? length (D_fields d))%nat.
+  && (List.length (expand d) <=? List.length (D_fields d))%nat.
 
 (* value of one summary field of a sample array (sd is not modelled) *)
 Definition bound_value (xs : list Q) (b : bound) : option Q :=
@@ -248,33 +248,33 @@ Definition build_plot_data (d : pdesc) (t : list pcell) : list precord :=
   map (fun c => mkRec (pc_ps c) (pc_pe c) (pc_ev c) (pc_lag c) (lookup_last c tbl [])) t.
 
 (* ------------------------------------------------------------------ the standard description *)
-Definition S := str_of_string.
-Definition fld (w : who) (x : string) : mexpr := MField w (S x).
+Definition STR := str_of_string.
+Definition fld (w : who) (x : string) : mexpr := MField w (STR x).
 Definition ratio100 (loss : string) : mexpr :=
   MBin ODiv (MBin OMul (MConst 100) (fld Cur loss)) (fld Cur "earned_premium").
 Definition ata (loss : string) : mexpr := MBin ODiv (fld Next loss) (fld Cur loss).
 Definition std_desc : pdesc := {|
-  D_fields := map S ["field"; "metric"; "mean"; "median"; "sd"; "min"; "max"; "q2_5"; "q5"; "q10"; "q20";
+  D_fields := map STR ["field"; "metric"; "mean"; "median"; "sd"; "min"; "max"; "q2_5"; "q5"; "q10"; "q20";
                      "q50"; "q80"; "q90"; "q95"; "q97_5"; "is_forecast"; "keep_samples"]%string;
   D_probs := [25 # 1000; 5 # 100; 1 # 10; 2 # 10; 5 # 10; 8 # 10; 9 # 10; 95 # 100; 975 # 1000];
   D_args := [FName; FMetric; FStat SMean; FStat SMedian; FStat SStd; FStat SMin; FStat SMax; FStarQuantiles];
   D_metrics := [
-    (S "Paid Loss Ratio", (1%nat, ratio100 "paid_loss"));
-    (S "Reported Loss Ratio", (1%nat, ratio100 "reported_loss"));
-    (S "Incurred Loss Ratio", (1%nat, ratio100 "incurred_loss"));
-    (S "Paid Loss", (1%nat, fld Cur "paid_loss"));
-    (S "Reported Loss", (1%nat, fld Cur "reported_loss"));
-    (S "Incurred Loss", (1%nat, fld Cur "incurred_loss"));
-    (S "Earned Premium", (1%nat, fld Cur "earned_premium"));
-    (S "Reported Claims", (1%nat, fld Cur "reported_claims"));
-    (S "Paid ATA", (3%nat, ata "paid_loss"));
-    (S "Reported ATA", (3%nat, ata "reported_loss"));
-    (S "Paid Incremental ATA", (3%nat, MBin OSub (ata "paid_loss") (MConst 1)));
-    (S "Reported Incremental ATA", (3%nat, MBin OSub (ata "reported_loss") (MConst 1)))];
-  D_rows := S "slice_period_rows";
-  D_core := [(S "period_start", S "period_start"); (S "period_end", S "period_end");
-             (S "evaluation_date", S "evaluation_date"); (S "dev_lag", S "dev_lag()")];
-  D_records_over := S "triangle" |}.
+    (STR "Paid Loss Ratio", (1%nat, ratio100 "paid_loss"));
+    (STR "Reported Loss Ratio", (1%nat, ratio100 "reported_loss"));
+    (STR "Incurred Loss Ratio", (1%nat, ratio100 "incurred_loss"));
+    (STR "Paid Loss", (1%nat, fld Cur "paid_loss"));
+    (STR "Reported Loss", (1%nat, fld Cur "reported_loss"));
+    (STR "Incurred Loss", (1%nat, fld Cur "incurred_loss"));
+    (STR "Earned Premium", (1%nat, fld Cur "earned_premium"));
+    (STR "Reported Claims", (1%nat, fld Cur "reported_claims"));
+    (STR "Paid ATA", (3%nat, ata "paid_loss"));
+    (STR "Reported ATA", (3%nat, ata "reported_loss"));
+    (STR "Paid Incremental ATA", (3%nat, MBin OSub (ata "paid_loss") (MConst 1)));
+    (STR "Reported Incremental ATA", (3%nat, MBin OSub (ata "reported_loss") (MConst 1)))];
+  D_rows := STR "slice_period_rows";
+  D_core := [(STR "period_start", STR "period_start"); (STR "period_end", STR "period_end");
+             (STR "evaluation_date", STR "evaluation_date"); (STR "dev_lag", STR "dev_lag()")];
+  D_records_over := STR "triangle" |}.
 
 (* ------------------------------------------------------------------ Boolean equality of descriptions *)
 Definition who_eqb (a b : who) : bool :=
